@@ -97,6 +97,10 @@ pub fn exotic_states(rng: &mut Rng) -> Vec<Screen> {
         (6, 2, Box::new(|s| { s.draw("\u{6f22}"); s.draw("\u{301}"); s.cariage_return(); s.draw("a"); })),
         (6, 2, Box::new(|s| { s.draw("x\u{6f22}\u{308}"); s.cursor_position(Some(1), Some(2)); s.erase_characters(Some(1)); s.cursor_position(Some(2), Some(1)); })),
         (5, 2, Box::new(|s| { s.draw("\u{30b3}\u{3099}z"); s.cursor_position(Some(1), Some(1)); s.delete_characters(Some(1)); })),
+        // the cursor outside the scrolling region, in the pending-wrap column (a wrap from below the region moves UP to the bottom margin)
+        (5, 5, Box::new(|s| { s.set_margins(Some(1), Some(3)); s.cursor_position(Some(5), Some(1)); s.draw("abcde"); })),
+        (4, 6, Box::new(|s| { s.set_margins(Some(3), Some(4)); s.cursor_position(Some(6), Some(1)); s.draw("wxyz"); })),
+        (4, 6, Box::new(|s| { s.set_margins(Some(3), Some(5)); s.cursor_position(Some(1), Some(1)); s.draw("wxyz"); })),
     ];
     let mut out = Vec::new();
     for (c, l, f) in scripts.iter() {
@@ -149,7 +153,7 @@ fn prop_events(prop: &str, em: &mut Em, rng: &mut Rng, thorough: bool) {
     let n = if thorough { 6000 } else { 700 };
     events(em, rng, n, &mut |r| {
         let mut t = String::new();
-        let num = |r: &mut Rng| -> String { match r.below(7) { 0 => String::new(), 1 => "0".into(), 2 => "1".into(), 3 => format!("{}", 2 + r.below(30)), 4 => "9999".into(), 5 => "007".into(), _ => format!("{}", r.below(300)) } };
+        let num = |r: &mut Rng| -> String { match r.below(7) { 0 => String::new(), 1 => "0".into(), 2 => "1".into(), 3 => format!("{}", 2 + r.below(30)), 4 => "9999".into(), 5 => (*r.pick(&["007", "10000", "65536", "2147483648", "4294967295", "4294967296", "4294967297", "4294967298", "4294967301", "8589934593", "18446744073709551615", "18446744073709551616", "99999999999999999999999"])).to_string(), _ => format!("{}", r.below(300)) } };
         for _ in 0..(2 + r.below(4)) {
             if r.chance(1, 3) {
                 // a disturber
@@ -169,7 +173,7 @@ fn prop_events(prop: &str, em: &mut Em, rng: &mut Rng, thorough: bool) {
             let f = *r.pick(finals);
             let tok = if f == "TEXT" { r.pick(&["a", "lqk", "\u{e9}", "\u{3042}", "~", "x\u{301}"]).to_string() }
                 else if f == "LONGm" { let k = 14 + r.below(12); let v: Vec<String> = (0..k).map(|_| r.pick(&["0", "1", "7", "27", "31", "44", "38;5;196", "48;2;1;2;3", "22", "39"]).to_string()).collect(); format!("\u{1b}[{}m", v.join(";")) }
-                else if f == "m" { let k = r.below(5); let v: Vec<String> = (0..k).map(|_| r.pick(&["0", "1", "7", "27", "31", "44", "38;5;196", "48;2;1;2;3", "22", "39", ""]).to_string()).collect(); format!("\u{1b}[{}m", v.join(";")) }
+                else if f == "m" { let k = r.below(5); let v: Vec<String> = (0..k).map(|_| r.pick(&["0", "1", "7", "27", "31", "44", "38;5;196", "48;2;1;2;3", "22", "39", "", "4294967296", "4294967297", "4294967327", "38;5;4294967492", "48;2;1;4294967312;3", "38;4294967301;1", "18446744073709551616"]).to_string()).collect(); format!("\u{1b}[{}m", v.join(";")) }
                 else if let Some(rest) = f.strip_prefix("ESC ") { format!("\u{1b}{}", rest.replace(' ', "")) }
                 else if f.len() == 1 && f.chars().next().unwrap().is_ascii_alphabetic() || f == "@" { let ps = match r.below(4) { 0 => String::new(), 1 => num(r), 2 => format!("{};{}", num(r), num(r)), _ => format!("{};{};{}", num(r), num(r), num(r)) }; format!("{}{}{}", if r.chance(3, 4) { "\u{1b}[" } else { "\u{9b}" }, ps, f) }
                 else { f.to_string() };
@@ -383,6 +387,9 @@ fn c08(em: &mut Em, rng: &mut Rng, thorough: bool) {
 
 // ------------------------------------------------------------------ C04 draw
 fn c04(em: &mut Em, rng: &mut Rng, thorough: bool) {
+    for code in ["B", "0", "U", "V"] { for shifted in [false, true] {
+        let r = safe(|| { let mut s = Screen::new(6, 2); s.define_charset(code, if shifted { ")" } else { "(" }); if shifted { s.shift_out(); } s.select_graphic_rendition(&[1, 33]); s.dirty.clear(); s });
+        if let Some(s) = r { for t in ["\u{fe}", "\u{ff}", "\u{100}", "\u{101}", "\u{fd}\u{fe}\u{ff}\u{100}\u{101}", "\u{7f}\u{80}", "\u{0}\u{1}"] { em.probe(&s, &Op::Draw(t.to_string())); } } } }
     let geos: &[(u32, u32)] = &[(1, 1), (1, 3), (2, 2), (3, 1), (4, 3), (5, 4), (10, 2)];
     for &(c, l) in geos.iter() {
         let per = (all_margins(l).len() as u64) * 6 * (l as u64) * (c as u64 + 1);
@@ -538,7 +545,11 @@ fn c20(em: &mut Em, rng: &mut Rng, _thorough: bool) {
                 em.probe_via_parser(&s, &expect, t, true); }
             em.probe_via_parser(&s, &Op::ShiftOut, "\u{e}", false); em.probe_via_parser(&s, &Op::ShiftIn, "\u{f}", false);
             em.probe_via_parser(&s, &Op::DefCharset("0".into(), "(".into()), "\u{1b}(0", false); em.probe_via_parser(&s, &Op::DefCharset("U".into(), ")".into()), "\u{1b})U", false); } } } }
-    for code in ["A", "1", "", "BB", "b", "K", "\u{1b}"] { for slot in ["(", ")", "*", "+", ""] { let s = Screen::new(2, 1); em.probe(&s, &Op::DefCharset(code.into(), slot.into())); } }
+    for code in ["A", "1", "", "BB", "b", "K", "\u{1b}", "\u{142}", "\u{130}", "\u{155}", "\u{156}", "\u{2030}", "\u{1f630}", "\u{ff22}"] { for slot in ["(", ")", "*", "+", ""] { let s = Screen::new(2, 1); em.probe(&s, &Op::DefCharset(code.into(), slot.into())); } }
+    // the same unsupported finals through the recogniser in 8-bit mode, from a state whose tables are not the defaults
+    { let mut s = Screen::new(4, 1); s.define_charset("U", "("); s.define_charset("V", ")");
+      for code in ["\u{142}", "\u{130}", "\u{155}", "\u{156}", "\u{2030}", "\u{ff22}"] { for slot in ["(", ")"] {
+          em.probe_via_parser(&s, &Op::DefCharset(code.into(), slot.into()), &format!("\u{1b}{}{}", slot, code), false); } } }
     em.init_check(2, 1);
 }
 
@@ -719,6 +730,11 @@ fn c12(em: &mut Em, rng: &mut Rng, thorough: bool) {
               if m != 3 && safe(|| pre.apply(&mut cur)).is_none() { continue; }
               em.probe(&cur, &mo); if safe(|| mo.apply(&mut cur)).is_none() { continue; }
               for o in g.iter() { em.probe(&cur, o); let oc = o.clone(); if safe(|| oc.apply(&mut cur)).is_none() { break; } } } } } } } }
+    // DECOM governs CUP / HVP / VPA: every region, origin mode on and off, every row argument from 0 to beyond the screen
+    for &(c, l) in [(4u32, 6u32), (3, 5)].iter() { for m in all_margins(l) { for decom in [true, false] {
+        let r = safe(move || { let mut s = Screen::new(c, l); if let Some((t, b)) = m { s.set_margins(Some(t + 1), Some(b + 1)); } if decom { s.set_mode(&[6], true); } s.cursor_position(Some(2), Some(2)); s.dirty.clear(); s });
+        if let Some(st) = r { for row in 0..=(l + 2) { if !thorough && !rng.chance(2, 3) { continue; } em.probe(&st, &Op::Cup(Some(row), Some(3))); em.probe(&st, &Op::Vpa(Some(row)));
+            if row % 3 == 0 { em.probe_via_parser(&st, &Op::Cup(Some(row), Some(3)), &csi(&format!("{};3", row), 'H'), true); } } } } } }
     // DECCOLM from every kind of starting width — narrower than, equal to and wider than 132 — with something written at the right
     // edge, with and without a region / DECOM: set (both spellings), set again, reset, reset again, each step a probe
     for w in [1u32, 3, 80, 131, 132, 133, 140, 200] { for variant in 0..3 {
@@ -812,6 +828,13 @@ fn c15(em: &mut Em, rng: &mut Rng, thorough: bool) {
 
 // ------------------------------------------------------------------ C17 dirty
 fn c17(em: &mut Em, rng: &mut Rng, thorough: bool) {
+    // every region x every cursor row (inside, above, below the region) at the pending-wrap column and at column 0, dirty just cleared:
+    // the operations that move between rows while changing cells
+    for &(c, l) in [(4u32, 5u32), (3, 4)].iter() { for m in all_margins(l) { for row in 0..l { for pending in [true, false] {
+        let r = safe(move || { let mut s = Screen::new(c, l); for y in 0..l { s.cursor_position(Some(y + 1), Some(1)); s.draw(&"q".repeat(c as usize - 1)); }
+            if let Some((t, b)) = m { s.set_margins(Some(t + 1), Some(b + 1)); } s.cursor_position(Some(row + 1), Some(1)); if pending { s.draw(&"z".repeat(c as usize)); } s.dirty.clear(); s });
+        if let Some(st) = r { for o in [Op::Draw("x".into()), Op::Draw("\u{4e2d}".into()), Op::Draw("xy".into()), Op::Draw("\u{301}".into()), Op::Linefeed, Op::Index, Op::RevIndex] {
+            if thorough || rng.chance(1, 2) { em.probe(&st, &o); } } } } } } }
     let geos: Vec<(u32, u32)> = SMALL.iter().chain(MED.iter()).cloned().collect();
     let n = if thorough { 6000 } else { 600 };
     for _ in 0..n { let (c, l) = *rng.pick(&geos); let mut sp = random_spec(rng, c, l); sp.clear_dirty = true; sp.fill = *rng.pick(&[1u8, 1, 2, 3]);
@@ -837,7 +860,7 @@ fn c19(em: &mut Em, rng: &mut Rng, thorough: bool) {
         // an ESC at the very end would pair with the terminator's first character
         if payload.ends_with('\u{1b}') { continue; }
         let intro = *rng.pick(&["\u{1b}]", "\u{9d}"]); let term = *rng.pick(&["\u{7}", "\u{9c}", "\u{1b}\\"]);
-        let code = *rng.pick(&['0', '1', '2', '0', '1', '2', '3', '4', '9', 'a', 'z', 'L', 'l', 'I']);
+        let code = *rng.pick(&['0', '1', '2', '0', '1', '2', '3', '4', '9', 'a', 'z', 'L', 'l', 'I', '\u{430}', '\u{431}', '\u{432}', '\u{130}', '\u{131}', '\u{132}', '\u{ff10}', '\u{ff12}', '\u{660}']);
         // state must not leak from one string sequence into the next: precede the sequence under test by 0-2 sequences
         // with codes that have no effect (their payload is arbitrary)
         let mut prefix = String::new();
@@ -933,6 +956,16 @@ fn c03(em: &mut Em, rng: &mut Rng, thorough: bool) {
     events(em, rng, if thorough { 200000 } else { 20000 }, &mut |r| { let n = 1 + r.below(6) as usize; gen_token_stream(r, n) });
     events(em, rng, if thorough { 4000 } else { 600 }, &mut |r| { let n = 1 + r.below(40); let d: String = (0..n).map(|_| char::from_u32(48 + r.below(10) as u32).unwrap()).collect(); let d2: String = (0..r.below(25)).map(|_| char::from_u32(48 + r.below(10) as u32).unwrap()).collect();
         format!("{}{}{};{}{}", r.pick(&["\u{1b}[", "\u{9b}"]), r.pick(&["", "?"]), d, d2, r.pick(&["H", "m", "A", "r", "h", "z", "\u{18}"])) });
+    // numerals at the edges of the machine integer types (2^8, 2^16, 2^31, 2^32 +- k, 2^33, 2^64 - 1, 2^64, 2^64 + 1, 2^65 + 1): each must
+    // saturate at 9999 — through every parameter position and the finals that act on small values
+    { let edge = ["255", "256", "65535", "65536", "65537", "2147483647", "2147483648", "4294967295", "4294967296", "4294967297", "4294967298", "4294967301", "4294967492", "8589934592", "8589934594",
+                  "18446744073709551615", "18446744073709551616", "18446744073709551617", "36893488147419103233", "0004294967297"];
+      let mut v: Vec<String> = Vec::new();
+      for e in edge.iter() { for f in ["A", "B", "C", "D", "G", "H", "J", "K", "L", "M", "P", "X", "@", "d", "m", "r", "g", "h", "l"] { for intro in ["\u{1b}[", "\u{9b}", "\u{1b}[?"] {
+          v.push(format!("{}{}{}", intro, e, f)); v.push(format!("{}3;{}{}", intro, e, f)); v.push(format!("{}{};2{}", intro, e, f)); } }
+          v.push(format!("\u{1b}[38;5;{}m", e)); v.push(format!("\u{1b}[38;{};1m", e)); v.push(format!("\u{1b}[48;2;1;{};3m", e)); v.push(format!("\u{1b}[31;{}m", e)); }
+      let mut it3 = v.into_iter();
+      events_opt(em, rng, &mut |_r| it3.next()); }
     // every final byte 0x20..0x7e (and some non-ASCII) x 0..3 parameters x private flag: the dispatch tables
     let mut finals: Vec<char> = (0x20u32..0x7f).map(|c| char::from_u32(c).unwrap()).collect(); finals.extend(['\u{e9}', '\u{3042}', '\u{7f}', '\u{80}', '\u{ff12}', '\u{b2}', '\u{b9}', '\u{bd}', '\u{663}', '\u{2160}', '\u{96f6}']);
     let mut combos: Vec<String> = Vec::new();
